@@ -1,7 +1,7 @@
-\* C20 ext (specs/TagRules.tla), thorough: design check only; the complete product rule lists <= 3 (3 templates x 2 results) x tag lists <= 3 over 6 tags for the three legacy filters.  Deadlock checking stays on: every behaviour must reach phase "done".
+\* C20 ext (specs/TagRules.tla), thorough: design check only; the complete product rule lists <= 3 (3 templates x 2 results) x tag lists <= 3 over 4 tags for the three legacy filters.  Deadlock checking stays on: every behaviour must reach phase "done".
 SPECIFICATION Spec
 CONSTANTS
   Fams <- Legacy
   Alpha <- AlphaLegacy
-  Shapes <- ShapeSmall33
+  Shapes <- ShapeTiny33
 INVARIANTS TypeOK RefinesRules RefinesIter RefinesRest
